@@ -25,6 +25,7 @@ WORLDS = {
     "C01": "worlds.c01",
     "C12": "worlds.c12",
     "C13": "worlds.c13",
+    "C02": "worlds.c02",
 }
 
 # per-property tier sizes: (runs, wall budget seconds, per-run timeout)
